@@ -40,29 +40,37 @@ PV(v, p)  == [v |-> v, p |-> p]
 Pv0(v)    == PV(v, <<>>)
 
 \* result of a primitive -> stream of one value (empty path)
-FromR(r) == IF r.t = "FAIL" THEN ErrS(r.v) ELSE IF r.t = "UNK" THEN End(UnkT) ELSE One(Pv0(r))
+FromR(r0) == LET r == r0 IN IF r.t = "FAIL" THEN ErrS(r.v) ELSE IF r.t = "UNK" THEN End(UnkT) ELSE One(Pv0(r))
 \* the same, keeping a given path
-FromRP(r, p) == IF r.t = "FAIL" THEN ErrS(r.v) ELSE IF r.t = "UNK" THEN End(UnkT) ELSE One(PV(r, p))
+FromRP(r0, p) == LET r == r0 IN IF r.t = "FAIL" THEN ErrS(r.v) ELSE IF r.t = "UNK" THEN End(UnkT) ELSE One(PV(r, p))
 
-Cat(s1, s2) == IF IsOk(s1) THEN S(s1.o \o s2.o, s2.e) ELSE s1
+\* (TLC re-evaluates an operator argument at every use: arguments are bound by LET, which is cached)
+Cat(s1, s2) == LET a == s1 IN IF IsOk(a) THEN (LET b == s2 IN S(a.o \o b.o, b.e)) ELSE a
 
 RECURSIVE CatAll(_, _)
 CatAll(ss, k) ==
   IF k > Len(ss) THEN Emp
-  ELSE IF IsOk(ss[k]) THEN LET r == CatAll(ss, k + 1) IN S(ss[k].o \o r.o, r.e)
-  ELSE ss[k]
+  ELSE LET x == ss[k]
+       IN IF IsOk(x) THEN LET r == CatAll(ss, k + 1) IN S(x.o \o r.o, r.e)
+          ELSE x
 
 \* for every item of s in order, the items of Op(item); stop at the first non-ok
-Bind(s, Op(_)) == CatAll([i \in 1..Len(s.o) |-> Op(s.o[i])] \o << End(s.e) >>, 1)
+Bind(s0, Op(_)) ==
+  LET s == s0
+      ss == [i \in 1..Len(s.o) |-> Op(s.o[i])] \o << End(s.e) >>
+  IN CatAll(ss, 1)
 
 \* cartesian product, left operand outermost (manual: f + g == f as $x | g as $y | $x + $y)
-Prod2(sl, sr, Op(_, _)) ==
-  CatAll([i \in 1..Len(sl.o) |->
-            Cat(CatAll([j \in 1..Len(sr.o) |-> Op(sl.o[i], sr.o[j])], 1), End(sr.e))]
-         \o << End(sl.e) >>, 1)
+Prod2(sl0, sr0, Op(_, _)) ==
+  LET sl == sl0
+      sr == sr0
+      ss == [i \in 1..Len(sl.o) |->
+               LET inner == [j \in 1..Len(sr.o) |-> Op(sl.o[i], sr.o[j])] IN Cat(CatAll(inner, 1), End(sr.e))]
+            \o << End(sl.e) >>
+  IN CatAll(ss, 1)
 
 \* prefix of a stream: the laziness of the definition (C03)
-Take(s, n) == IF Len(s.o) >= n THEN S(SubSeq(s.o, 1, n), Ok) ELSE s
+Take(s0, n) == LET s == s0 IN IF Len(s.o) >= n THEN S(SubSeq(s.o, 1, n), Ok) ELSE s
 
 RECURSIVE FlatSeq(_)
 FlatSeq(ss) == IF ss = <<>> THEN <<>> ELSE Head(ss) \o FlatSeq(Tail(ss))
@@ -556,6 +564,7 @@ Native(m, name, args, env, x, lc, fuel) ==
     [] name = "has" ->
          Con(Bind(RunA(1), LAMBDA k : IF HasIErr(k.v) THEN End(UnkT)
                                       ELSE G(IF v.t = "null" THEN False
+                                             ELSE IF v.t = "str" /\ k.v.t = "obj" THEN Unk  \* manual: "always an error" vs ".[$k] points to data"
                                              ELSE IF v.t \in {"bool", "int", "flt", "str"} THEN IFail
                                              ELSE LET r == Index(v, k.v)
                                                   IN IF ~IsVal(r) THEN r
@@ -613,6 +622,6 @@ NatUpd(name, args, env, v, u, lc, fuel) ==
 -----------------------------------------------------------------------------
 (* evaluation of a whole program in the prelude environment; result streams *)
 (* carry values only                                                        *)
-Vals(s) == S([i \in 1..Len(s.o) |-> s.o[i].v], s.e)
-PathsOf(s) == S([i \in 1..Len(s.o) |-> ArrV(s.o[i].p)], s.e)
+Vals(s0) == LET s == s0 IN S([i \in 1..Len(s.o) |-> s.o[i].v], s.e)
+PathsOf(s0) == LET s == s0 IN S([i \in 1..Len(s.o) |-> ArrV(s.o[i].p)], s.e)
 =============================================================================
